@@ -194,7 +194,10 @@ theorem C10_pending_blob_only_false (db : DB) (s : Snapshot) (h : s.WF) (hne : s
 
 @[reducible] def exKit0 : Kit := { Kit.new (List.replicate 32 5) with amt := 500000, units := 5, minUnitsMatch := 2 }
 @[reducible] def exKit : Kit := { exKit0 with allowedNodeIDs := [List.replicate 33 4], isPublic := true, auctionType := 1 }
-@[reducible] def exBid : Order := .bid exKit 2 20000 (some [1, 2, 3]) true false
+/-- a sidecar ticket as the real `sidecar.SerializeTicket` wrote it (taken from a harness run) -/
+@[reducible] def exTicket : Bytes :=
+  [1, 8, 11, 75, 41, 31, 225, 97, 108, 236, 2, 1, 0, 3, 1, 6, 10, 64, 11, 8, 0, 0, 0, 72, 20, 183, 31, 123, 12, 8, 0, 0, 0, 0, 61, 169, 66, 67, 13, 4, 158, 148, 221, 239, 14, 33, 3, 163, 34, 106, 206, 203, 155, 20, 207, 46, 36, 155, 125, 84, 127, 201, 122, 148, 35, 119, 172, 145, 214, 29, 125, 224, 69, 115, 204, 130, 89, 85, 70, 16, 1, 0]
+@[reducible] def exBid : Order := .bid exKit 2 20000 (some exTicket) true false
 
 @[reducible] def exMatch : Match :=
   ⟨List.replicate 32 5, witnessAsk, List.replicate 33 2, List.replicate 33 3,
@@ -213,9 +216,9 @@ example : exTx.WF := by decide
 set_option maxRecDepth 100000 in
 example : exAcct.WF := by decide
 set_option maxRecDepth 100000 in
-example : exBid.WF := by
-  show exKit.WF ∧ WFu32 2 ∧ WFu64 20000 ∧ [1, 2, 3].length < 2 ^ 48
-  decide
+theorem exTicket_canonical : ticketCanonical exTicket = true := by decide
+set_option maxRecDepth 100000 in
+example : exBid.WF := by decide
 example : witnessAsk.WF ∧ witnessAsk.baseProj ≠ witnessAsk := by decide
 set_option maxRecDepth 100000 in
 example : exSnap.WF := by decide
